@@ -268,3 +268,77 @@ pub fn diverging_branch_programs() -> Vec<String> {
     }
     out
 }
+
+/// `it ? T` over a source whose *declared* element type is E (a struct type, a union, a tuple type ...), for every
+/// pairing of E with a filter type T that is wider, narrower, overlapping or unrelated.
+pub struct TypedFilterCase {
+    pub label: String,
+    pub decl: String,
+    pub calls: Vec<String>,
+    pub filter: String,
+    pub elements: Vec<String>,
+    /// the selected elements can be compared by content (no function values, whose identity differs per evaluation)
+    pub comparable: bool,
+    /// programs whose value is the array of selected elements
+    pub collect_programs: Vec<String>,
+}
+
+pub fn typed_filter_cases() -> Vec<TypedFilterCase> {
+    let sources: Vec<(&str, Vec<&str>, bool)> = vec![
+        ("struct{x: int, y: int}", vec!["struct{x := 1, y := 2}", "struct{x := 3, y := 4}"], true),
+        ("struct{id: int, v: int|()}", vec!["struct{id := 1, v := 5}", "struct{id := 2, v := ()}"], true),
+        ("struct{x: int, y: int}|int|string", vec!["struct{x := 1, y := 2}", "7", "struct{x := 3, y := 4}", "\"s\""], true),
+        ("struct{a: int|string}", vec!["struct{a := 1}", "struct{a := \"s\"}"], true),
+        ("struct{a: int}|struct{b: int}", vec!["struct{a := 1}", "struct{b := 2}", "struct{a := 1, b := 2}"], true),
+        ("struct{a: struct{b: int, c: int}}", vec!["struct{a := struct{b := 1, c := 2}}"], true),
+        ("int|string", vec!["1", "\"a\"", "2"], true),
+        ("int|float", vec!["1", "2.5"], true),
+        ("int", vec!["1", "2"], true),
+        ("[int]|[string]", vec!["[1]", "[\"a\"]", "[]"], true),
+        ("[int|string]", vec!["[1, \"a\"]", "[2]", "[]", "[\"b\"]"], true),
+        ("[struct{x: int, y: int}]", vec!["[struct{x := 1, y := 2}]", "[]"], true),
+        ("(int, int)|(int, string)", vec!["(1, 2)", "(1, \"a\")"], true),
+        ("(int|string, int)", vec!["(1, 2)", "(\"a\", 2)"], true),
+        ("(struct{x: int, y: int}, int)", vec!["(struct{x := 1, y := 2}, 3)"], true),
+        ("mut int|mut string", vec!["mut 1", "mut \"s\""], false),
+        ("mut (int|string)", vec!["mut int|string 1"], false),
+        ("() -> int", vec!["() -> int { return 1 }"], false),
+        ("() -> (int|string)", vec!["() -> int|string { return 1 }", "() -> int { return 2 }"], false),
+        ("() -> struct{x: int, y: int}", vec!["() -> struct{x: int, y: int} { return struct{x := 1, y := 2} }"], false),
+        ("any", vec!["1", "\"a\"", "2.5", "struct{x := 1, y := 2}", "[1]", "(1, 2)", "()", "true", "struct{x := 1}"], true),
+    ];
+    let filters = [
+        "int", "string", "float", "int|float", "int|string", "any", "()", "[int]", "[string]", "[any]", "[int|string]", "[struct{x: int}]", "(int, int)", "(int, any)",
+        "(any, any)", "(int|string, int)", "(struct{x: int}, int)", "struct{x: int}", "struct{x: int, y: int}", "struct{y: int}", "struct{}", "struct{x: int|string}",
+        "struct{id: int, v: int}", "struct{id: int}", "struct{id: int, v: ()}", "struct{a: int}", "struct{a: int|string}", "struct{b: int}", "struct{a: int, b: int}",
+        "struct{a: struct{b: int}}", "struct{x: int}|int", "mut int", "mut string", "mut (int|string)", "() -> int", "() -> (int|string)", "() -> any", "() -> struct{x: int}",
+    ];
+    let mut out = Vec::new();
+    for (e, els, comparable) in &sources {
+        let lit = format!("[{}]", els.join(", "));
+        for t in filters {
+            let collect_param = format!("f := (a: [{e}]) -> any {{ return (a~ ? {t}) $] }}; f({lit})");
+            let collect_lit = format!("({lit}~ ? {t}) $]");
+            let collect_typed = format!("f := (a: [{e}]) -> [{t}] {{ return (a~ ? {t}) $] }}; f({lit})");
+            let decl = format!("f := (a: [{e}]) -> any {{ it := a~ ? {t}; r := it(); q := it $]; return (r, q, r.1) }};");
+            let calls = vec![
+                format!("{decl} f({lit})"),
+                collect_param.clone(),
+                collect_lit.clone(),
+                collect_typed.clone(),
+                format!("f := (a: [{e}]) -> any {{ c := mut [{t}] []; for x in a~ ? {t} {{ c += [x]; }}; return *c }}; f({lit})"),
+                format!("f := (a: [{e}]) -> any {{ it := a~ ? {t}; d := mut it().1; return d }}; f({lit})"),
+            ];
+            out.push(TypedFilterCase {
+                label: "type-filter:typed-source".into(),
+                decl,
+                calls,
+                filter: t.to_string(),
+                elements: els.iter().map(|x| x.to_string()).collect(),
+                comparable: *comparable,
+                collect_programs: vec![collect_param, collect_lit, collect_typed],
+            });
+        }
+    }
+    out
+}
